@@ -26,7 +26,7 @@ Empty == [x \in {} |-> 0]
 
 Note(clause, cond) ==
   /\ nviol' = nviol + 1
-  /\ viol' = IF Len(viol) < 2000 THEN Append(viol, [line |-> l, clause |-> clause, cond |-> cond]) ELSE viol
+  /\ viol' = IF Len(viol) < 6000 THEN Append(viol, [line |-> l, clause |-> clause, cond |-> cond]) ELSE viol
 
 Init == l = 1 /\ api = "" /\ cfg = Empty /\ ns = 0 /\ adm = Empty /\ ghost = <<>> /\ conn = Empty
         /\ viol = <<>> /\ nviol = 0 /\ ndec = 0 /\ sb = FALSE
